@@ -175,6 +175,9 @@ func main() {
 		fixImports(filepath.Join(*root, "verifsync"))
 	}
 	writeSiteTable(filepath.Join(*root, "verifsimrt", "sites_gen.go"))
+	if sb, err := json.Marshal(sites); err == nil {
+		os.WriteFile(filepath.Join(*root, "verifsimrt", "sites.json"), sb, 0o644)
+	}
 
 	var pk []string
 	for p := range pkgs {
